@@ -1,7 +1,7 @@
 (* C11 — all data sources are equivalent and the row window selects exactly its rows. Statements only.
    A column is the list of per-row slots of one data set; zip_rows puts the columns side by side in FRAME CHANNEL ORDER
    (the order of `cols`), never the source's own order. *)
-From DV Require Import Model.Data Proofs.DataP.
+From DV Require Import Model.Data Proofs.DataP Model.ApiDispatch Proofs.CoverP.
 
 (* the direct-slice path of a structured source (taken when its fields are exactly the frame's channels) and the generic
    per-channel path used by dict / HDF5 / inline sources produce the same rows *)
@@ -30,6 +30,23 @@ Example C11_ex :
   /\ load_direct (zip_rows [a; b] 5) 1 0 3 = load_generic [a; b] 1 0 3.
 Proof. vm_compute. split; reflexivity. Qed.
 
+(* the window a write honours lies INSIDE the data: a frame is only set up when 0 <= from_idx < rows of its first data set
+   and, if given, from_idx < to_idx <= those rows. (Before the repair of D24 in /repo the wrapper accepted to_idx beyond the
+   data and negative from_idx; when exactly one row remained numpy broadcast it over the whole requested window and the file
+   held rows that are not in the source.) C11_sources / C11_window / C11_chunks above assume such a window. *)
+Theorem C11_window_inside_the_data : forall hc st l w wf st' rows,
+  setup_frame hc st l w wf = OK (st', rows) ->
+  0 <= w_from w /\
+  exists f, lf_at st l = Some f /\
+    let merged := data_merge (l_data f) (match w_data w with Some d => d | None => [] end) in
+    let st1 := set_lf st l (set_ldata f merged) in
+    forall c0 cs, frame_channels st (wf_item wf) = c0 :: cs ->
+      exists d0, data_find merged (dataset_name_of (item_at st1 c0)) = Some d0
+                 /\ w_from w < cd_rows d0
+                 /\ match w_to w with Some t => w_from w < t /\ t <= cd_rows d0 | None => True end.
+Proof. exact setup_frame_window. Qed.
+
 Print Assumptions C11_sources.
 Print Assumptions C11_window.
 Print Assumptions C11_chunks.
+Print Assumptions C11_window_inside_the_data.
